@@ -1877,4 +1877,30 @@ theorem invD_of_run (v : Variant) (hP : 0 < v.period) (hd : v.drains = true) {es
       invD_step v hd s s' e hI.1.L hI.1.T hI.1.S hI.2 hs⟩) h
   exact this.2
 
+/-! ### the ghost counters count events -/
+
+def isPark (f : Nat) : Ev → Bool
+  | .wState g f' x => g = f ∧ f' = f ∧ x = WAITING
+  | _ => false
+def isWake (f : Nat) : Ev → Bool
+  | .wState _ f' x => f' = f ∧ x = READY
+  | _ => false
+def isResume (f : Nat) : Ev → Bool
+  | .resumed f' => f' = f
+  | _ => false
+
+set_option maxHeartbeats 4000000 in
+theorem counters_count_events (v : Variant) {es : List Ev} {s : St} (h : (sys v).run es = some s) :
+    ∀ f, s.nPark f = es.countP (isPark f) ∧ s.nWake f = es.countP (isWake f) ∧
+      s.nRes f = es.countP (isResume f) := by
+  refine Sys.hist_inv_of_run (sys v) (fun s es => ∀ f, s.nPark f = es.countP (isPark f) ∧
+    s.nWake f = es.countP (isWake f) ∧ s.nRes f = es.countP (isResume f))
+    (by intro f; simp [sys, init]) ?_ h
+  intro s es e s' hI hstep
+  have hstep' : step v s e = some s' := hstep
+  cases e <;> simp only [step] at hstep' <;> (repeat' split at hstep') <;> simp at hstep' <;>
+    (try subst hstep')
+  all_goals (intro f'; have := hI f'; simp only [List.countP_append, List.countP_cons, List.countP_nil, isPark, isWake, isResume, upd, WAITING, READY] at *; grind)
+
+
 end LibfiberVerif.Sleep
